@@ -51,11 +51,15 @@ def _entry(prop, fams, text):
     e = {"families": fams, "defects": []}
     prev = _earlier(prop, "rule")
     e["rule"] = (prev + " || " if prev else "") + text
-    extra = _earlier(prop, "coverage_extra")
-    if extra is not None:
-        e["coverage_extra"] = extra
+    for key in ("coverage_extra", "explanation", "assumptions", "extra", "level"):
+        v = _earlier(prop, key)
+        if v is not None:
+            e[key] = v
     return e
 
+
+_C11_NOTE = ("the parser assumption above (TrimsFirst) is DISCHARGED for the modelled rules.NewRule by UF/Props/C11Compose.lean "
+             "(c11_trimsFirst_real, c11_real); the composed ops i1.chain / i1.scan run the modelled parser instead of the oracle table")
 
 PROPS = {
     "C01": _entry("C01", [fam("i1.chain", 300, 5000, seeds=4)], _CHAIN),
@@ -63,3 +67,6 @@ PROPS = {
     "C02": _entry("C02", [fam("i1.dnschain", 300, 5000, seeds=4)], _DNS),
     "C15": _entry("C15", [fam("i1.coschain", 300, 5000, seeds=4)], _COS),
 }
+
+if isinstance(PROPS["C11"].get("assumptions"), list):
+    PROPS["C11"]["assumptions"] = PROPS["C11"]["assumptions"] + [_C11_NOTE]
